@@ -42,7 +42,9 @@ CONSTANTS
     Tickets,                \* BOOLEAN: the server issues TLS 1.3 session tickets (crypto/tls default; the code as shipped)
     Changes, Presents,      \* subsets of {"none","revoke"} and {"same","nocert"} (see section 4)
     \* sequences of requests by different accounts on ONE gateway (section 5)
-    Memory                  \* BOOLEAN: FALSE = the router keeps nothing between requests (the code as shipped)
+    Memory,                 \* BOOLEAN: FALSE = the router keeps nothing between requests (the code as shipped)
+    \* handshakes overlapping in the chain query (section 6)
+    SharedVerdict           \* BOOLEAN: FALSE = every handshake is verified on its own (the code as shipped)
 
 Accounts      == {"X", "Y"}                 \* CN values that are well formed akash account addresses
 SerialUniverse == {"s1", "s2"}
@@ -286,6 +288,38 @@ SeqCase(a, b, p, q) == [kind |-> "seq", reg |-> SeqReg,
                                      [cert |-> GenuineOf(a), path |-> q] >>]
 SeqCases == { SeqCase(t[1], t[2], t[3], t[4]) :
                 t \in { u \in {"X", "Y"} \X {"X", "Y"} \X SeqPaths \X SeqPaths : u[1] # u[2] /\ u[3].dseq = u[4].dseq } }
+
+(***************************************************************************************************************)
+(* (6) OVERLAP: handshakes that are in VerifyPeerCertificate at the same time on one gateway.                      *)
+(* A "race" case is a registry and steps <<holder, joiner, joiner>>: the holder's chain query for (cn, serial) is   *)
+(* held open, the joiners' handshakes are started, then the query is released.  The statement holds for every       *)
+(* handshake whatever it overlaps with; the shipped code verifies each one on its own (SharedVerdict = FALSE: a     *)
+(* step's outcome is the single case's).  SharedVerdict = TRUE describes a gateway in which handshakes in flight    *)
+(* for the same certificate id (owner, serial) share the VERDICT of one chain round trip, including the comparison  *)
+(* of the presented bytes with the published ones (seeded change C09-7); it exists only as a discrimination test    *)
+(* (MC_shared.cfg must fail RaceSound).                                                                            *)
+(***************************************************************************************************************)
+ReachesLookup(c) == c.chainLen = 1 /\ c.cn \in Accounts /\ c.issuer = "self"
+ChainVerdict(c, reg) == Lookup(reg, c.cn, c.serial).state = "valid" /\ c.der = "onchain"      \* steps 3 and 4 of utils.go
+VerifyAt(steps, reg, k) ==
+    LET c == steps[k].cert  h == steps[1].cert IN
+    IF SharedVerdict /\ k > 1 /\ ReachesLookup(c) /\ ReachesLookup(h) /\ c.cn = h.cn /\ c.serial = h.serial
+    THEN ChainVerdict(h, reg) /\ c.window = "ok" /\ PermitsClient(c.usage)       \* joins the holder's flight
+    ELSE VerifyPeer(c, reg)
+AcceptedAt(steps, reg, k) == steps[k].cert.chainLen >= 1 /\ steps[k].cert.holds /\ VerifyAt(steps, reg, k)
+
+RaceRegs == { [id \in RegIds |-> CASE id = "X/s1" -> [state |-> st, key |-> "k1", window |-> "ok", usage |-> "client", first |-> "same"]
+                                   [] OTHER -> None] : st \in {"valid", "revoked"} }
+GenuineX(h)  == [cn |-> "X", first |-> "same", issuer |-> "self", serial |-> "s1", key |-> "k1", window |-> "ok",
+                 usage |-> "client", chainLen |-> 1, der |-> "onchain", holds |-> h]
+ForgedX(s)   == [cn |-> "X", first |-> "same", issuer |-> "self", serial |-> s, key |-> "k2", window |-> "ok",
+                 usage |-> "client", chainLen |-> 1, der |-> "fresh", holds |-> TRUE]
+RaceHolders  == {GenuineX(TRUE), ForgedX("s1")}
+RaceJoiners  == {GenuineX(TRUE), GenuineX(FALSE), ForgedX("s1"), ForgedX("s2")}
+RaceCases == { [kind |-> "race", reg |-> t[1],
+                steps |-> << [cert |-> t[2], path |-> DefaultPath], [cert |-> t[3], path |-> DefaultPath],
+                             [cert |-> t[4], path |-> DefaultPath] >>] :
+                 t \in RaceRegs \X RaceHolders \X RaceJoiners \X RaceJoiners }
 
 (***************************************************************************************************************)
 (* THE PROPERTY, parametrised by an outcome.  J1 instantiates it with the outcome the transcribed procedure     *)
